@@ -444,6 +444,12 @@ func (c *Client) UnsubscribePredefined(topicID uint16) error {
 }
 
 func (c *Client) publish(topicIDType uint8, topicID uint16, qos uint8, retain bool, payload []byte) error {
+	// The message must fit into one MQTT-SN packet (4B header + 5B PUBLISH
+	// fields + payload), MQTT-SN does not support fragmentation.
+	if len(payload) > pkts1.MaxPacketLen-9 {
+		return fmt.Errorf("payload too long: %d bytes (max. %d)", len(payload), pkts1.MaxPacketLen-9)
+	}
+
 	publish := pkts1.NewPublish(topicID, payload, false, qos, retain, topicIDType)
 	msgID, _ := c.msgID.Next()
 	publish.SetMessageID(msgID)
